@@ -501,10 +501,11 @@ def setup():
 
 
 def miri_warmup():
-    args = ["C19", "--tier", "quick", "--scale", "0.0001", "--threads", "1", "--watchdog", "0"]
-    cmd, env, cwd = miri_command(args)
+    # builds the Miri sysroot and the harness under Miri; an unknown property name makes rvmon exit
+    # with 3 right after start-up, so nothing but the build and one interpreter start is paid here
+    cmd, env, cwd = miri_command(["NOOP"])
     code, logp, dt = run_logged(cmd, "setup-miri.log", env=env, cwd=cwd, timeout=3600)
-    if code not in (0, 1, 2):
+    if code != 3:
         raise Inconclusive(f"miri warm-up failed (exit {code}), see {logp}")
 
 
